@@ -722,6 +722,22 @@ def check_c19(sc, res):
                 res.stats["probe:pack-iterated:" + label] += 1
             if any(oc[0] == "ok" for oc, _, _ in got) and not kw_load["strict"]:
                 res.stats["probe:lenient-option-reached:" + label] += 1
+        # the same pack object once more, after the iterations above (one of which may have
+        # died half-way) and after an iteration that is abandoned at its first item
+        if not has_dup or ign:
+            try:
+                peek = sp.simfile_dirs()
+                next(peek, None)
+                del peek
+                again = sorted(npath(x.simfile_dir) for x in sp.simfile_dirs())
+            except Exception as e:
+                res.violate(P, "pack-iterated-again-raised", exc=repr(e))
+                return
+            if again != sorted(want_dirs):
+                res.violate(P, "pack-iterated-again-lists-other-directories", got=again,
+                            expected=sorted(want_dirs))
+                return
+            res.stats["probe:pack-object-iterated-again"] += 1
         for d, sd, smp, sscp in kept_dirs:
             if sd.sm_path != smp or sd.ssc_path != sscp:
                 res.violate(P, "directory-object-changed-later", dir=d, before=[smp, sscp],
